@@ -10,7 +10,9 @@ CONSTANTS
   AcrhOK <- AcrhOKElems
   AcrhEcho <- AcrhEchoElems
   CheckPairs = %(pairs)s
+  DumpSems = %(dumpsems)s
 INVARIANTS %(invs)s
+CONSTRAINT DumpSem
 CHECK_DEADLOCK FALSE
 """
 SERVE_CFG = """SPECIFICATION Spec
@@ -23,11 +25,11 @@ CHECK_DEADLOCK FALSE
 
 
 def model(c, invs, twins, pairs=False, tag=""):
-    thunks = [lambda: c.model_check("CorsMC", CORS_CFG % dict(bug="none", pairs="TRUE" if pairs else "FALSE", invs=invs),
+    thunks = [lambda: c.model_check("CorsMC", CORS_CFG % dict(bug="none", pairs="TRUE" if pairs else "FALSE", invs=invs, dumpsems="FALSE"),
                                     tag="CorsMC_%s%s" % (c.pid, tag), timeout=3000, workers=8)]
     for bug, expect in twins:
         thunks.append(lambda bug=bug, expect=expect: c.negative_twin(
-            "CorsMC", CORS_CFG % dict(bug=bug, pairs="TRUE" if pairs else "FALSE", invs=invs),
+            "CorsMC", CORS_CFG % dict(bug=bug, pairs="TRUE" if pairs else "FALSE", invs=invs, dumpsems="FALSE"),
             tag="CorsMC_neg_%s" % bug, expect=expect, timeout=1200, workers=4))
     c.parallel(thunks)
 
